@@ -1,7 +1,9 @@
 // C10 second extractor: squad / spline with slerp / intermediate opaque (module C10Interp).
 #include "sym.h"
+#include "c10frac.h" // FracS: the callees at exact fractions (rattv), before any Imath header
 #include "shapes.h"
 #include "main.h"
+#include "c10extra.h"
 #include <ImathQuat.h>
 // explicit specialisations for T = Sym: opaque CALL nodes of the Gen definitions extracted by sym_c10.cpp
 IMATH_INTERNAL_NAMESPACE_HEADER_ENTER
@@ -29,6 +31,33 @@ template <class T> static std::vector<T> nativeIntermediate (const std::vector<T
 }
 static int native_c10b = (symns::natives ()["C10.Quat.slerp"] = symns::Native{&nativeSlerp<double>, &nativeSlerp<float>},
                           symns::natives ()["C10.Quat.intermediate"] = symns::Native{&nativeIntermediate<double>, &nativeIntermediate<float>}, 0);
+// the REAL slerp / intermediate at exact fractions with the fixed stubs (c10frac.h): troute.lean_tv then validates the emitted
+// text of squad / spline (call order, argument order of the opaque calls) instead of skipping them
+static std::vector<symns::Frac> fracSlerp (const std::vector<symns::Frac>& a)
+{
+    return symns::fracRun ([&] {
+        using symns::FracS;
+        IMATH_INTERNAL_NAMESPACE::Quat<FracS> q1 (a[0], a[1], a[2], a[3]), q2 (a[4], a[5], a[6], a[7]);
+        auto r = IMATH_INTERNAL_NAMESPACE::slerp (q1, q2, FracS (a[8]));
+        return std::vector<FracS>{r.r, r.v.x, r.v.y, r.v.z};
+    });
+}
+static std::vector<symns::Frac> fracIntermediate (const std::vector<symns::Frac>& a)
+{
+    return symns::fracRun ([&] {
+        using symns::FracS;
+        IMATH_INTERNAL_NAMESPACE::Quat<FracS> q0 (a[0], a[1], a[2], a[3]), q1 (a[4], a[5], a[6], a[7]), q2 (a[8], a[9], a[10], a[11]);
+        auto r = IMATH_INTERNAL_NAMESPACE::intermediate (q0, q1, q2);
+        return std::vector<FracS>{r.r, r.v.x, r.v.y, r.v.z};
+    });
+}
+static int native_c10b_q = (symns::natives ()["C10.Quat.slerp"].q = &fracSlerp, symns::natives ()["C10.Quat.intermediate"].q = &fracIntermediate, 0);
 using namespace IMATH_INTERNAL_NAMESPACE;
 #include "ops_c10b.h"
-int main (int argc, char** argv) { return symns::sym_main (argc, argv); }
+// spline never survives the generic rattv generator (overflow of the 128-bit fractions): hand-picked sparse key sets, see c10extra.h
+int main (int argc, char** argv)
+{
+    int rc = symns::sym_main (argc, argv);
+    if (argc > 1 && std::string (argv[1]) == "rattv") symns::c10ExtraRatCases ("C10.Quat.spline", 4, true, argc > 2 ? strtoul (argv[2], 0, 10) : 1, argc > 3 ? atoi (argv[3]) : 3);
+    return rc;
+}
